@@ -152,8 +152,26 @@ def quantifier_form(fx, rep, p, slf):
     # `.flatten()` over the stream of Results yields exactly the Ok payloads: the element is the record itself
     flat = v[2] == ("call", "std::iter::Iterator::flatten", (iter_term(slf),))
     # `.filter_map(Result::ok)` is the same sequence of Ok payloads
+    def is_result_ok(f_):
+        """`Result::ok` itself, or a closure that is `|item| item.ok()`"""
+        if f_[0] == "fnref" and f_[1].startswith("std::result::Result") and f_[1].endswith("::ok"):
+            return True
+        if f_[0] != "closure":
+            return False
+        try:
+            import models as M_
+            t_ = M_.closure_term(sy, f_, 1, S.St(), {"sp": "?"})
+        except S.Undecidable:
+            return False
+        x_ = ("bound", 0)
+        if t_[0] == "call" and t_[1].startswith("std::result::Result") and t_[1].endswith("::ok") and t_[2] == (x_,):
+            return True
+        if t_[0] == "cases":
+            want_ = {(((("is", x_, "Ok"), True),), (), some(mk_payload(x_, "Ok", "0"))), (((("is", x_, "Ok"), False),), (), NONE)}
+            return set(t_[1]) == want_
+        return False
     if v[2][0] == "call" and v[2][1].endswith("Iterator::filter_map") and len(v[2][2]) == 2 and v[2][2][0] == iter_term(slf) \
-            and v[2][2][1][0] == "fnref" and v[2][2][1][1].startswith("std::result::Result") and v[2][2][1][1].endswith("::ok"):
+            and is_result_ok(v[2][2][1]):
         flat = True
         v = (v[0], v[1], ("call", "std::iter::Iterator::flatten", (iter_term(slf),)), v[3])
     rep.check("C19.1", "C19.1/has_line_info/driver", v[2] == iter_term(slf) or flat, loc=F.short_file(b["sp"]), found="any() over %s" % S.tstr(v[2])[:200],
